@@ -68,19 +68,79 @@ Theorem c15_nothing_dropped : forall docs p d v,
   In d docs -> getd p d = Some v -> exists w, getd p (effective docs) = Some w.
 Proof. exact nothing_dropped. Qed.
 
-(* The loader sequence computed by SortOrderedComponents (Model/Sorter.v): the priority-ordered file
-   loaders first (all Order 0: in an order the contract leaves open), then every other loader in
-   the order it was added; every loader exactly once. *)
+(* The loader sequence computed by SortOrderedComponents (Model/Sorter.v): the loaders that declare an order
+   (priority-ordered ones such as files, then merely ordered ones) first, then every other loader in the
+   order it was added; every loader exactly once. *)
 Theorem c15_sequence : forall ls,
-  (exists fs, Permutation fs (filter is_file ls) /\
-              sequence ls = fs ++ filter (fun l => negb (is_file l)) ls)
+  (exists fs, Permutation fs (filter has_order ls) /\
+              sequence ls = fs ++ filter (fun l => negb (has_order l)) ls)
   /\ Permutation ls (sequence ls).
 Proof. intros ls. split; [apply sequence_shape|apply sequence_perm]. Qed.
+
+(* ... the front block obeys the ordering contract of C12: priority before ordered, Order never decreasing ... *)
+Theorem c15_sequence_contract : forall ls,
+  contract_ok (map (fun l => mkPart 0 (lclass l)) (sequence ls)) = true.
+Proof. exact sequence_contract. Qed.
+
+(* ... and loaders of the same class and the same Order — two configuration files, two user loaders with equal
+   Order() — are consulted in the order in which they were added, so the one added LAST wins.  (sort.Slice on at
+   most 12 elements is an insertion sort with a strict comparison; with the contract above this fixes the
+   sequence completely.) *)
+Theorem c15_sequence_stable : forall c ls,
+  filter (fun l => same_class (lclass l) c) (sequence ls) = filter (fun l => same_class (lclass l) c) ls.
+Proof. exact sequence_stable. Qed.
+
+(* with the built-in loader kinds only (raw, file, command line): the files in the order they were added, then the
+   others in the order they were added *)
+Theorem c15_sequence_builtin : forall ls,
+  Forall (fun l => is_user l = false) ls ->
+  sequence ls = filter is_file ls ++ filter (fun l => negb (is_file l)) ls.
+Proof. exact sequence_builtin. Qed.
 
 (* Initialize = merge of the loaded documents in that sequence (empty outputs skipped) *)
 Theorem c15_initialize : forall ls ds,
   docs_of (sequence ls) = Some ds -> initialize ls = ROk (effective ds).
 Proof. exact initialize_docs. Qed.
+
+(* One Configure used in several steps (SetLoaders / AddLoaders / Initialize in any sequence).  configure.go stores
+   the SORTED list back at every Initialize ([Stored]); the specification keeps the list as the user built it and
+   sorts all of it at every Initialize ([AsAdded]).  The two produce the same trace — configuration after every step,
+   outcome and consulted loaders of every Initialize — for every history from every state. *)
+Theorem c15_history : forall s steps, hist_trace Stored s steps = hist_trace AsAdded s steps.
+Proof. exact hist_modes_agree. Qed.
+
+(* Hence an Initialize after ANY history consults [sequence] of ALL loaders configured so far (what SetLoaders /
+   AddLoaders built, [loaders_after]) and merges their documents, in that sequence, on top of the configuration
+   the earlier passes left. *)
+Theorem c15_history_initialize : forall steps s,
+  hist_trace Stored s (steps ++ [CInit]) =
+  hist_trace Stored s steps ++
+  [let s' := hist_final AsAdded s steps in
+   let '(cfg, r, used) := run_partial (cs_cfg s') (sequence (loaders_after (cs_loaders s) steps)) in
+   (cfg, Some (r, used))].
+Proof. exact hist_init_after. Qed.
+
+(* re-sorting the stored list together with later additions is sorting everything added so far *)
+Theorem c15_resort : forall l1 l2, sequence (sequence l1 ++ l2) = sequence (l1 ++ l2).
+Proof. exact sequence_resort. Qed.
+
+(* the bootstrap scenario: Initialize, AddLoaders, Initialize again (e.g. through app.SetConfigure) *)
+Theorem c15_reinitialize : forall l1 l2 ds1 ds2,
+  docs_of (sequence l1) = Some ds1 -> docs_of (sequence (l1 ++ l2)) = Some ds2 ->
+  hist_trace Stored (mkCState l1 []) [CInit; CAdd l2; CInit] =
+  [(effective ds1, Some (SOk, sequence l1));
+   (effective ds1, None);
+   (effective (ds1 ++ ds2), Some (SOk, sequence (l1 ++ l2)))].
+Proof. exact reinitialize. Qed.
+
+(* a pass that fails keeps what was merged before the failure; on passes that succeed it is [run_seq] *)
+Theorem c15_partial_pass : forall seq cfg,
+  run_seq cfg seq = match run_partial cfg seq with
+                    | (c, SOk, _) => ROk c
+                    | (_, SErr, _) => RErr
+                    | (_, SPanic, _) => RPanic
+                    end.
+Proof. exact run_seq_partial. Qed.
 
 (* Options that add a source (SetConfig, repaired AddConfigLoader) keep every earlier loader, in
    place, and therefore every path an earlier source supplies stays visible after the start. *)
@@ -163,9 +223,58 @@ Definition ex_args := mkLoader 2 (LArgs [(["db"; "port"], AInt 3)]).
 Definition ex_file2 := mkLoader 3 (LFile (Some (Some ex_d3))).
 
 Example c15_sequence_example :
-  map lid (sequence [ex_raw; ex_file; ex_args; ex_file2]) = [3; 1; 0; 2]%nat \/
   map lid (sequence [ex_raw; ex_file; ex_args; ex_file2]) = [1; 3; 0; 2]%nat.
-Proof. right. vm_compute. reflexivity. Qed.
+Proof. vm_compute. reflexivity. Qed.
+
+(* user loaders of every class among the built-in ones; equal Orders keep the order of addition *)
+Definition ex_p7 := mkLoader 4 (LUser (Prio 7) (Some ex_d3)).
+Definition ex_p0 := mkLoader 5 (LUser (Prio 0) (Some ex_d1)).
+Definition ex_o3a := mkLoader 6 (LUser (Ord 3) (Some ex_d1)).
+Definition ex_o3b := mkLoader 7 (LUser (Ord 3) (Some ex_d2)).
+Definition ex_om := mkLoader 8 (LUser (Ord (-1)) None).
+Definition ex_u := mkLoader 9 (LUser Unord (Some ex_d3)).
+Definition ex_mixed := [ex_u; ex_o3a; ex_raw; ex_p7; ex_p0; ex_file; ex_o3b; ex_args; ex_om; ex_file2].
+
+Example c15_sequence_mixed_example :
+  map lid (sequence ex_mixed) = [5; 1; 3; 4; 8; 6; 7; 9; 0; 2]%nat /\
+  contract_ok (map (fun l => mkPart 0 (lclass l)) (sequence ex_mixed)) = true /\
+  map lid (filter (fun l => same_class (lclass l) (Prio 0)) ex_mixed) = [5; 1; 3]%nat /\
+  map lid (filter (fun l => same_class (lclass l) (Ord 3)) ex_mixed) = [6; 7]%nat.
+Proof. vm_compute. repeat split. Qed.
+
+Example c15_sequence_builtin_example :
+  Forall (fun l => is_user l = false) [ex_raw; ex_file; ex_args; ex_file2] /\
+  sequence [ex_raw; ex_file; ex_args; ex_file2] = [ex_file; ex_file2; ex_raw; ex_args].
+Proof. split; [repeat constructor|vm_compute; reflexivity]. Qed.
+
+(* two files with the same key: the file added last wins, whichever way round they are added *)
+Example c15_equal_order_last_added_wins_example :
+  (match initialize [ex_file; ex_file2] with ROk c => getd ["db"; "port"] c | _ => None end) = Some (CLeaf (AInt 3)) /\
+  (match initialize [ex_file2; ex_file] with ROk c => getd ["db"; "port"] c | _ => None end) = Some (CLeaf (AInt 2)).
+Proof. vm_compute. split; reflexivity. Qed.
+
+(* histories: a bootstrap raw loader, Initialize, then a file and two user loaders are added, Initialize again:
+   the second pass consults file, priority, ordered, raw — not "raw first because it was sorted earlier" *)
+Example c15_history_example :
+  let steps := [CInit; CAdd [ex_o3a; ex_file]; CAdd [ex_p7]; CInit] in
+  map (fun x => match snd x with Some (r, used) => Some (r, map lid used) | None => None end)
+      (hist_trace Stored (mkCState [ex_raw] []) steps)
+  = [Some (SOk, [0%nat]); None; None; Some (SOk, [1; 4; 6; 0]%nat)] /\
+  hist_trace Stored (mkCState [ex_raw] []) steps = hist_trace AsAdded (mkCState [ex_raw] []) steps /\
+  loaders_after [ex_raw] steps = [ex_raw; ex_o3a; ex_file; ex_p7].
+Proof. vm_compute. repeat split. Qed.
+
+Example c15_reinitialize_example :
+  docs_of (sequence [ex_raw]) = Some [ex_d1] /\
+  docs_of (sequence ([ex_raw] ++ [ex_file2; ex_file])) = Some [ex_d3; ex_d2; ex_d1] /\
+  getd ["db"; "port"] (effective ([ex_d1] ++ [ex_d3; ex_d2; ex_d1])) = Some (CLeaf (AInt 1)).
+Proof. vm_compute. repeat split. Qed.
+
+(* a pass that fails half-way keeps what it merged before: unreadable file after a readable one *)
+Example c15_partial_pass_example :
+  run_partial [] [ex_file; mkLoader 10 (LFile None); ex_raw] = (ex_d2, SErr, [ex_file; mkLoader 10 (LFile None)]) /\
+  run_seq [] [ex_file; mkLoader 10 (LFile None); ex_raw] = RErr.
+Proof. vm_compute. split; reflexivity. Qed.
 
 Example c15_initialize_example :
   initialize [ex_raw; ex_file; ex_args] =
